@@ -6,6 +6,7 @@ import (
 	"bytes"
 	"fmt"
 	"math/big"
+	"sync/atomic"
 	"testing"
 
 	"github.com/bilibili/smgo/zzverif/hk"
@@ -43,6 +44,7 @@ type fieldOps struct {
 	bytes    func(a interface{}) []byte
 	toBig    func(a interface{}) *big.Int
 	raw      func(a interface{}) [4]uint64
+	setRaw   func(l [4]uint64) interface{} // element whose INTERNAL (Montgomery) limbs are l
 	isZero   func(a interface{}) int
 	equal    func(a, b interface{}) int
 	aliasMul func(a interface{}) interface{} // e.Mul(e,e) on a copy
@@ -73,6 +75,7 @@ func fieldP() *fieldOps {
 		bytes:  func(a interface{}) []byte { return E(a).Bytes() },
 		toBig:  func(a interface{}) *big.Int { return E(a).ToBigInt() },
 		raw:    func(a interface{}) [4]uint64 { return [4]uint64(E(a).x) },
+		setRaw: func(l [4]uint64) interface{} { return &SM2Element{x: sm2MontgomeryDomainFieldElement(l)} },
 		isZero: func(a interface{}) int { return E(a).IsZero() },
 		equal:  func(a, b interface{}) int { return E(a).Equal(E(b)) },
 		aliasMul: func(a interface{}) interface{} {
@@ -112,6 +115,7 @@ func fieldN() *fieldOps {
 		bytes:  func(a interface{}) []byte { return E(a).Bytes() },
 		toBig:  func(a interface{}) *big.Int { return E(a).ToBigInt() },
 		raw:    func(a interface{}) [4]uint64 { return [4]uint64(E(a).x) },
+		setRaw: func(l [4]uint64) interface{} { return &SM2ScalarElement{x: sm2ScalarMontgomeryDomainFieldElement(l)} },
 		isZero: func(a interface{}) int { return E(a).IsZero() },
 		equal:  func(a, b interface{}) int { return E(a).Equal(E(b)) },
 		aliasMul: func(a interface{}) interface{} {
@@ -399,6 +403,195 @@ func TestVerifC16(t *testing.T) {
 			r.EvalN(fmt.Sprintf("field-%s:edge-results", f.name), nEdge+8)
 		}
 
+		// operands given by their INTERNAL limbs: every field element is a legal internal state (the
+		// Montgomery form of some residue), but the forms of "nice" residues look random, so carry chains
+		// inside the word-by-word reduction that need extreme limbs in the operands themselves are only
+		// reached when the limbs are chosen directly. All 4-limb words over the alphabet that are below the
+		// modulus; results are compared limb for limb with (A*B*2^-256) mod m, (A+-B) mod m computed on integers.
+		{
+			rinv := new(big.Int).ModInverse(c16B256, m)
+			var raws [][4]uint64
+			cnt := int(hk.Seed() % uint64(stride))
+			for _, a := range alpha {
+				for _, b := range alpha {
+					for _, c := range alpha {
+						for _, d := range alpha {
+							cnt++
+							if cnt%stride != 0 {
+								continue
+							}
+							l := [4]uint64{a, b, c, d}
+							if fromLimbs(l).Cmp(m) < 0 {
+								raws = append(raws, l)
+							}
+						}
+					}
+				}
+			}
+			limbs4 := func(v *big.Int) [4]uint64 {
+				ls := limbsOf(v)
+				return [4]uint64{ls[0], ls[1], ls[2], ls[3]}
+			}
+			chkRaw := func(op string, got interface{}, want *big.Int, A, B [4]uint64) {
+				if f.raw(got) != limbs4(want) {
+					r.Violation(fmt.Sprintf("field-%s-%s-wrong-on-internal-limbs", f.name, op), hk.D{"field": f.name, "op": op, "internal_limbs_a": fmt.Sprintf("%016x", A), "internal_limbs_b": fmt.Sprintf("%016x", B),
+						"got_limbs": fmt.Sprintf("%016x", f.raw(got)), "want_limbs": fmt.Sprintf("%016x", limbs4(want))})
+				}
+			}
+			hk.Parallel(len(raws), func(i int) {
+				lr := hk.NewRNG(hk.Seed(), fmt.Sprintf("c16raw/%s/%d", f.name, i))
+				A := raws[i]
+				ai := fromLimbs(A)
+				ea := f.setRaw(A)
+				chkRaw("square", f.square(ea), mod(new(big.Int).Mul(new(big.Int).Mul(ai, ai), rinv)), A, A)
+				chkRaw("mul-alias", f.aliasMul(ea), mod(new(big.Int).Mul(new(big.Int).Mul(ai, ai), rinv)), A, A)
+				if !bytes.Equal(f.bytes(ea), c16b32(mod(new(big.Int).Mul(ai, rinv)))) {
+					r.Violation(fmt.Sprintf("field-%s-bytes-wrong-on-internal-limbs", f.name), hk.D{"internal_limbs": fmt.Sprintf("%016x", A)})
+				}
+				wz := 0
+				if ai.Sign() == 0 {
+					wz = 1
+				}
+				if f.isZero(ea) != wz {
+					r.Violation(fmt.Sprintf("field-%s-iszero-wrong-on-internal-limbs", f.name), hk.D{"internal_limbs": fmt.Sprintf("%016x", A)})
+				}
+				if f.opp != nil {
+					chkRaw("opp", f.opp(ea), mod(new(big.Int).Neg(ai)), A, A)
+				}
+				n := 5
+				for k := 0; k < 4; k++ {
+					var B [4]uint64
+					switch k {
+					case 0, 1:
+						B = raws[lr.Intn(len(raws))]
+					case 2:
+						B = limbs4(mod(new(big.Int).Sub(new(big.Int).Sub(m, c16One), ai))) // A + B = m - 1
+					default:
+						B = limbs4(mod(new(big.Int).SetBytes(lr.Bytes(32))))
+					}
+					bi := fromLimbs(B)
+					eb := f.setRaw(B)
+					chkRaw("mul", f.mul(ea, eb), mod(new(big.Int).Mul(new(big.Int).Mul(ai, bi), rinv)), A, B)
+					chkRaw("mul-swapped", f.mul(eb, ea), mod(new(big.Int).Mul(new(big.Int).Mul(ai, bi), rinv)), B, A)
+					chkRaw("add", f.add(ea, eb), mod(new(big.Int).Add(ai, bi)), A, B)
+					chkRaw("sub", f.sub(ea, eb), mod(new(big.Int).Sub(ai, bi)), A, B)
+					chkRaw("sub-swapped", f.sub(eb, ea), mod(new(big.Int).Sub(bi, ai)), B, A)
+					weq := 0
+					if A == B {
+						weq = 1
+					}
+					if f.equal(ea, eb) != weq {
+						r.Violation(fmt.Sprintf("field-%s-equal-wrong-on-internal-limbs", f.name), hk.D{"a": fmt.Sprintf("%016x", A), "b": fmt.Sprintf("%016x", B)})
+					}
+					n += 6
+				}
+				r.EvalN(fmt.Sprintf("field-%s:internal-limbs,top=%016x", f.name, A[3]), n)
+			})
+			r.Note("internal_limb_operands_"+f.name, len(raws))
+		}
+
+		// operands SOLVED for the accumulator BEFORE the final conditional subtraction of a Montgomery
+		// multiplication / squaring: T = (A*B + q*m) / 2^256 lies in [0, 2m) and the result is T or T - m.
+		// Borrow chains of that subtraction depend on the limbs of T, which no choice of "nice" operands
+		// controls. For every patterned T in [m, 2m) (limbs over the alphabet, with and without the 257th
+		// bit) the monitor sets r = T - m, picks A at random and solves B = r * 2^256 / A (and X = sqrt(r *
+		// 2^256) for squaring); an integer model of the reduction tells whether the realised accumulator is
+		// the patterned T (about half of the time) - those are counted. The verdict is on the limbs of the result.
+		{
+			R := c16B256
+			rinv := new(big.Int).ModInverse(R, m)
+			mneg := new(big.Int).ModInverse(m, R) // m^-1 mod 2^256
+			mneg.Sub(R, mneg)                     // -m^-1 mod 2^256
+			accOf := func(a, b *big.Int) *big.Int {
+				ab := new(big.Int).Mul(a, b)
+				q := new(big.Int).Mul(new(big.Int).Mod(ab, R), mneg)
+				q.Mod(q, R)
+				t := new(big.Int).Add(ab, q.Mul(q, m))
+				return t.Rsh(t, 256)
+			}
+			limbs4 := func(v *big.Int) [4]uint64 {
+				ls := limbsOf(v)
+				return [4]uint64{ls[0], ls[1], ls[2], ls[3]}
+			}
+			twoM := new(big.Int).Lsh(m, 1)
+			sqrtExp := new(big.Int).Rsh(new(big.Int).Add(m, c16One), 2) // m = 3 mod 4 for both primes
+			var targets []*big.Int
+			cnt := int(hk.Seed() % uint64(stride))
+			for _, a := range alpha {
+				for _, b := range alpha {
+					for _, c := range alpha {
+						for _, d := range alpha {
+							for carry := 0; carry < 2; carry++ {
+								T := fromLimbs([4]uint64{a, b, c, d})
+								if carry == 1 {
+									T.Add(T, R)
+								}
+								if T.Cmp(m) < 0 || T.Cmp(twoM) >= 0 {
+									continue
+								}
+								cnt++
+								if cnt%stride != 0 {
+									continue
+								}
+								targets = append(targets, T)
+							}
+						}
+					}
+				}
+			}
+			var realisedMul, realisedSq int64
+			hk.Parallel(len(targets), func(i int) {
+				lr := hk.NewRNG(hk.Seed(), fmt.Sprintf("c16acc/%s/%d", f.name, i))
+				T := targets[i]
+				res := new(big.Int).Sub(T, m)
+				rR := mod(new(big.Int).Mul(res, R))
+				for rep := 0; rep < 2; rep++ {
+					A := mod(new(big.Int).SetBytes(lr.Bytes(32)))
+					if A.Sign() == 0 {
+						continue
+					}
+					B := mod(new(big.Int).Mul(rR, new(big.Int).ModInverse(A, m)))
+					got := f.mul(f.setRaw(limbs4(A)), f.setRaw(limbs4(B)))
+					hit := accOf(A, B).Cmp(T) == 0
+					if hit {
+						atomic.AddInt64(&realisedMul, 1)
+					}
+					if f.raw(got) != limbs4(res) {
+						r.Violation(fmt.Sprintf("field-%s-mul-wrong-for-solved-accumulator", f.name), hk.D{"field": f.name, "internal_limbs_a": fmt.Sprintf("%016x", limbs4(A)), "internal_limbs_b": fmt.Sprintf("%016x", limbs4(B)),
+							"accumulator_before_final_subtraction": accOf(A, B).Text(16), "got_limbs": fmt.Sprintf("%016x", f.raw(got)), "want_limbs": fmt.Sprintf("%016x", limbs4(res))})
+					}
+				}
+				n := 2
+				s0 := new(big.Int).Exp(rR, sqrtExp, m)
+				if mod(new(big.Int).Mul(s0, s0)).Cmp(rR) == 0 {
+					for _, X := range []*big.Int{s0, mod(new(big.Int).Neg(s0))} {
+						got := f.square(f.setRaw(limbs4(X)))
+						if accOf(X, X).Cmp(T) == 0 {
+							atomic.AddInt64(&realisedSq, 1)
+						}
+						if f.raw(got) != limbs4(res) {
+							r.Violation(fmt.Sprintf("field-%s-square-wrong-for-solved-accumulator", f.name), hk.D{"field": f.name, "internal_limbs_x": fmt.Sprintf("%016x", limbs4(X)),
+								"accumulator_before_final_subtraction": accOf(X, X).Text(16), "got_limbs": fmt.Sprintf("%016x", f.raw(got)), "want_limbs": fmt.Sprintf("%016x", limbs4(res))})
+						}
+						got2 := f.aliasMul(f.setRaw(limbs4(X)))
+						if f.raw(got2) != limbs4(res) {
+							r.Violation(fmt.Sprintf("field-%s-mul-alias-wrong-for-solved-accumulator", f.name), hk.D{"field": f.name, "internal_limbs_x": fmt.Sprintf("%016x", limbs4(X))})
+						}
+						n += 2
+					}
+				}
+				tl := limbs4(new(big.Int).Mod(T, R))
+				r.EvalN(fmt.Sprintf("field-%s:solved-accumulator,bit256=%d,limb2=%016x", f.name, T.Bit(256), tl[2]), n)
+			})
+			_ = rinv
+			r.Count("patterned_accumulators_realised_mul_"+f.name, realisedMul)
+			r.Count("patterned_accumulators_realised_square_"+f.name, realisedSq)
+			r.Note("patterned_accumulator_targets_"+f.name, len(targets))
+			if realisedMul == 0 || realisedSq == 0 {
+				r.Inconclusive("c16: no patterned pre-subtraction accumulator was realised")
+			}
+		}
+
 		// one / zero
 		chk("one", f.one(), big.NewInt(1))
 		chk("zero-value", f.zero(), big.NewInt(0))
@@ -475,7 +668,12 @@ func TestVerifC16(t *testing.T) {
 	}
 
 	// MultiSelect: masked selection over a table returns entry bits-1, or the fallback for bits=0
-	for _, width := range []int{1, 3, 15, 31, 63, 127} {
+	var widths []int
+	for w := 1; w <= 130; w++ {
+		widths = append(widths, w) // every width, odd and even: the loop stride / tail of the implementation is not the caller's concern
+	}
+	widths = append(widths, 200, 254, 255)
+	for _, width := range widths {
 		tbl := make([]*[4]uint64, width)
 		for i := range tbl {
 			tbl[i] = &[4]uint64{rng.Uint64(), rng.Uint64(), rng.Uint64(), rng.Uint64()}
@@ -499,7 +697,7 @@ func TestVerifC16(t *testing.T) {
 					if *out.GetRaw() != want {
 						r.Violation("multiselect-wrong", hk.D{"width": width, "bits": bits, "cond": cond})
 					}
-					r.Eval(fmt.Sprintf("multiselect:width=%d", width))
+					r.Eval(fmt.Sprintf("multiselect:width%%4=%d,last=%v", width%4, bits == width))
 				}
 			}
 		}
